@@ -8,9 +8,8 @@ SPEC = {
         "C18_constant_templates_total_prefix", "C18_prefix_protocol_refuted",
         "C18_annotation_label_blocks_total", "C18_unvalidated_block_key_crashes", "C18_reject_blocks_total",
         "C18_name_link_aggregate_blocks_total", "C18_block_model_matches_source",
-        "C18_every_dropped_error_is_validated_partial", "C18_crash_rows_are_exactly_the_open_findings",
-        "C18_every_dropped_error_is_validated_when_no_open_finding", "C18_every_dropped_error_is_validated_refuted", "C18_validated_same_never_drops_an_error", "C18_every_dropped_error_is_reviewed",
-        "C18_guard_check_rejects_unguarded_use", "C18_validation_reaches_every_block", "C18_every_option_is_validated_or_reviewed_partial", "C18_every_option_is_validated_or_reviewed_refuted", "C18_nonvacuous"]},
+        "C18_every_dropped_error_is_validated", "C18_validated_same_never_drops_an_error", "C18_every_dropped_error_is_reviewed",
+        "C18_guard_check_rejects_unguarded_use", "C18_validation_reaches_every_block", "C18_every_option_is_validated_or_reviewed", "C18_upstream_uris_are_validated", "C18_nonvacuous"]},
     "harness_args": lambda tier: ["C18", "--n", 60 if tier == "quick" else 4000],
     "search_args": lambda tier: ["C18", "--n", 100, "--templates", "no"],
     "harness_timeout": 2400,
@@ -48,22 +47,20 @@ MANIFEST = {
             "load-time validation is built by the same function and expanded by a total MustExpand on every rule (the pre-fix protocol is refuted with a witness); "
             "lifted to whole rule sub-blocks: an annotation / label / reject / name / link / aggregate block accepted by its validate() is turned by parseRule into checks "
             "whose String() and every regexp use inside Check are total on every rule, with no configured option silently dropped, while an unvalidated key crashes at "
-            "the first String() call. (2) over tables regenerated from the Go AST: every site of internal/config, internal/checks, internal/promapi, internal/discovery and cmd/pint where an "
+            "the first String() call. (2) FULL statement over tables regenerated from the Go AST: every site of internal/config, internal/checks, internal/promapi, internal/discovery and cmd/pint where an "
             "error is dropped or a Must* helper gets a non-constant argument is validated at load by a call to the same function on the same field with compatible "
-            "emptiness guards on both sides (checked mechanically against the generated validator and guard tables), or belongs to a reviewed harmless class, or - PARTIAL - "
-            "is a crash site of an OPEN known finding: the crash rows are proved to be exactly the open findings (one: C18-upstream-uri-unparsed, promapi.doRequest drops the "
-            "url.Parse error of a failover / prometheusQuery URI that no validate() parses); the full statement is refuted by that row and follows when none is open. "
+            "emptiness guards on both sides (checked mechanically against the generated validator and guard tables), or belongs to a reviewed harmless class; no known-crash "
+            "class exists (all crash rows were repaired in /repo: 457aa6b, 4986535, 4008951, 0b2762d, 72c92b8, 9df854d, 7fc2b62, 43069bd, 6f3f221). "
             "(3) load-time validation reaches every one of the 35 blocks of the configuration schema: the block type has a validate method, its parent calls it on that "
             "field and returns its error, transitively from config.Load; and every one of the 128 OPTIONS of those blocks is looked at by its block's validate method, "
-            "or is a boolean, or carries a reviewed reason why any value is acceptable (33, among them the two options that are parsed later but never validated: "
-            "match.keep_firing_for and gitlab.timeout, whose dropped error only yields a zero value), or - PARTIAL - is one of the three options of the open finding "
-            "(prometheus.failover, discovery template failover, prometheusQuery.uri; the full option statement is refuted by them); a new site, block or option without validation breaks a theorem. "
+            "or is a boolean, or carries a reviewed reason why any value is acceptable (34, among them the two options that are parsed later but never validated: "
+            "match.keep_firing_for and gitlab.timeout, whose dropped error only yields a zero value); upstream URIs (uri, failover, prometheusQuery.uri) are url.Parse'd at load (6f3f221); a new site, block or option without validation breaks a theorem. "
             "Tied by the translator, by differential execution of NewTemplatedRegexp/Expand/MustExpand and of Rule.validate/parseRule/String/Check on patterns x rules with "
             "regexp/template metacharacters, and by running the real binary on generated configurations over every documented block/option (valid, invalid, templated values; "
             "every match/ignore condition and every option of every rule-level block, one at a time over its whole value pool, crossed with a rule file that reaches it; --enabled/--disabled forms): `pint config` verdict vs panic/hang/OOM of lint runs (offline and "
             "against a fake Prometheus).",
     "note": "Coq 8.16.1 kernel+VM, no axioms; the harmless classes of the site table (zero value, defaulted, rule data, constant, helper body, CLI flag) are review "
-            "judgements exercised by execution; ONE open known finding (C18-upstream-uri-unparsed, class predicate on the input value + crash site, witness in corpus/C18, candidate patch in notes/candidate-fixes); crash freedom in general is not provable from an executable model and stays testing.",
+            "judgements exercised by execution; no open known finding (the last one, C18-upstream-uri-unparsed, was reported by an independent reader, confirmed here and repaired by 6f3f221; this check had missed it because internal/promapi was outside the site scan and the options were wrongly reviewed as harmless - both closed); crash freedom in general is not provable from an executable model and stays testing.",
     "technique": "Coq protocol theorems with library oracles (single pattern and whole block) + AST-generated site/validator/guard/schema tables with a reviewed disposition table + "
                  "differential correspondence + load-vs-lint runs of the binary",
 }
